@@ -1,8 +1,9 @@
 // ===== prelude/io.rs: stand-in for std::io::{Error, ErrorKind} (rule E3: message text dropped, kind kept) =====
+#[derive(PartialEq, Eq, Clone, Copy, Structural)]
+pub enum IoErrorKind { NotFound, AlreadyExists, WouldBlock, InvalidInput, InvalidData, UnexpectedEof, WriteZero, Interrupted, Other, Uncategorized }
 pub mod io {
     use vstd::prelude::*;
-    #[derive(PartialEq, Eq, Clone, Copy)]
-    pub enum ErrorKind { NotFound, AlreadyExists, WouldBlock, InvalidInput, InvalidData, UnexpectedEof, WriteZero, Interrupted, Other, Uncategorized }
+    pub use super::IoErrorKind as ErrorKind;
     pub struct Error { pub kind: ErrorKind }
     impl Error {
         pub fn new<M>(kind: ErrorKind, msg: M) -> (r: Error) ensures r.kind == kind { Error { kind } }
